@@ -226,7 +226,9 @@ func New(t *tape.Tape, o Options) *Workspace {
 		p := tape.Pick(t, "ws.supplypath", wktPaths)
 		// module 0: every other module may depend on it without creating a module cycle
 		m := ws.Modules[0]
-		wf := &File{Module: m.Index, Path: p, Package: "google.protobuf", Syntax: "proto3", Content: o.SupplyWKT(p), Message: wktTypes[p]}
+		// the vendored copy differs from the built-in one (a trailing comment), so that a silent
+		// fall-back to the built-in copy changes the descriptor's source info as well
+		wf := &File{Module: m.Index, Path: p, Package: "google.protobuf", Syntax: "proto3", Content: o.SupplyWKT(p) + "\n// vendored copy of " + p + "\n", Message: wktTypes[p]}
 		m.Files = append(m.Files, wf)
 		ws.Files[p] = wf
 		ws.SuppliedWKT[p] = true
